@@ -154,6 +154,11 @@ func (c *CBC) Decrypt(header recordlayer.Header, in []byte) ([]byte, error) {
 	}
 
 	dataEnd := len(body) - macSize - paddingLen
+	if dataEnd < 0 {
+		// Well-formed padding that leaves no room for the MAC: the tail of a
+		// genuine record replayed on its own looks like this.
+		return nil, dtlserrors.ErrInvalidMAC
+	}
 
 	expectedMAC := body[dataEnd : dataEnd+macSize]
 	var err error
